@@ -44,6 +44,7 @@ from fractions import Fraction as F
 import gen
 from props.common import account
 import props.krylov_cases as kc
+from vcheck import fmt_q, fmt_vec, fmt_crs
 import props.reuse_cases as rc
 
 DRIVERS = ["krylov"] + rc.DRIVERS
@@ -89,12 +90,24 @@ def breakdown_sys(n):
     return kc.Sys(n, rows, "id", None, f, [F(0)] * n, False)
 
 
+class PoisonSys(kc.Sys):
+    """a call whose DIAGONAL PRECONDITIONER has one infinite entry (double build only): non-finite values then
+    appear INSIDE the iteration (not only in the right-hand side), e.g. in IDR(s)'s small matrix M, BiCGStab(L)'s
+    tau, the GMRES Hessenberg -- members that survive the call and must not influence the next one"""
+    def __init__(self, S, j):
+        kc.Sys.__init__(self, S.n, S.rows, "diag", None, S.f, S.x0, S.sym)
+        D = kc.dense(S.rows, S.n)
+        self.ptoks = [("inf" if i == j else fmt_q(F(1) / D[i][i] if D[i][i] != 0 else F(1))) for i in range(S.n)]
+    def call_tokens(self):
+        return " ".join([fmt_crs(self.n, self.n, self.rows), str(self.n) + " " + " ".join(self.ptoks), fmt_vec(self.f), fmt_vec(self.x0)])
+
+
 def script(r, solver, n, dbl=False):
     sym = kc.sym_needed(solver)
     calls = []
     nc = r.choice([3, 4, 5])
     for c in range(nc):
-        kind = r.choice(["plain", "plain", "plain", "zero", "break", "conv"] + (["nan"] if dbl else []))
+        kind = r.choice(["plain", "plain", "plain", "zero", "break", "conv"] + (["nan", "pinf", "pinf"] if dbl else []))
         S = kc.make_sys(r, n, sym or r.random() < 0.4, r.choice(kc.pkinds_for(solver, sym)[:4]))
         if kind == "zero": S.f = [F(0)] * n
         elif kind == "break": S = breakdown_sys(n)
@@ -102,7 +115,14 @@ def script(r, solver, n, dbl=False):
         elif kind == "nan":
             S.rows = [[] if i == 0 else rw for i, rw in enumerate(S.rows)]   # singular: empty first row
             S.pk, S.pdata = "id", None
+        elif kind == "pinf":
+            S = PoisonSys(S, r.randrange(n))
         calls.append(S)
+    if dbl and not any(isinstance(S, PoisonSys) for S in calls):
+        # every double-build history contains at least one call that goes non-finite INSIDE the iteration
+        k = r.randrange(len(calls))
+        base = kc.make_sys(r, n, sym or r.random() < 0.4, "id")
+        calls[k] = PoisonSys(base, r.randrange(n))
     # the last call is always a plain one (it must not be influenced by what came before)
     calls.append(kc.make_sys(r, n, sym or r.random() < 0.4, r.choice(kc.pkinds_for(solver, sym)[:4])))
     return calls
